@@ -1108,8 +1108,21 @@ class ObjectDomain(EffectDomain):
                     else:
                         out.extend(self.apply(interp, fnv, pos, kw, s2, fr))
                 return out
-            # self.m(...) inside a method of an instance
+            # self.x(...) where the attribute x of the analysed object holds a callable value (a callback given to the constructor, ...)
             ch = attr_chain(f_)
+            if fr.instance is None and ch and len(ch) == 2 and fr.selfname and ch[0] == fr.selfname and st.has(fr.self_key + "." + ch[1]):
+                held = st.get(fr.self_key + "." + ch[1])
+                if (isinstance(held, tuple) and held[:1] and held[0] in CALLABLE_TAGS and not (held[0] == "func" and len(held) == 2 and False)) or is_inst(held):
+                    out = []
+                    for bad, pos, kw, s2 in self._call_args(interp, call, st, fr):
+                        if bad is not None:
+                            out.append(bad)
+                        elif pos is None:
+                            out.append(val(TOP, s2))
+                        else:
+                            out.extend(self.apply(interp, held, pos, kw, s2, fr))
+                    return out
+            # self.m(...) inside a method of an instance
             if fr.instance is not None and ch and len(ch) == 2 and ch[0] == fr.selfname:
                 got = self._inst_attr(interp, fr.instance, ch[1], st, fr)
                 if got is not None:
@@ -1127,7 +1140,8 @@ class ObjectDomain(EffectDomain):
                                 out.extend(self.apply(interp, g.value, pos, kw, s2, fr))
                     return out
             # calling the value of an arbitrary expression: f(x)(y), table[k](x), getattr(o, n)(x)
-            if isinstance(f_, (ast.Call, ast.Subscript)):
+            if isinstance(f_, (ast.Call, ast.Subscript)) or (isinstance(f_, ast.Attribute) and not attr_chain(f_) and not (dotted(f_) or "").startswith("super()")
+                                                             and not any(isinstance(n_, ast.Call) for n_ in ast.walk(f_.value))):
                 vals = interp.eval(f_, st, fr)
                 if vals and all(r.kind == "exc" or (isinstance(r.value, tuple) and r.value[:1] and (r.value[0] in CALLABLE_TAGS or is_inst(r.value))) for r in vals):
                     out = []
